@@ -201,7 +201,7 @@ func execConc(ts []string) string {
 	switch kind {
 	case "t", "r":
 		conf := modbus.ClientConfig{
-			ReadTimeout: 5 * time.Second,
+			ReadTimeout: 60 * time.Second,
 			DialContextFunc: func(ctx context.Context, address string) (net.Conn, error) {
 				if ctx.Value(concFirst{}) != nil {
 					return first, nil
@@ -219,7 +219,7 @@ func execConc(ts []string) string {
 		}
 		caller = netClient
 	case "s":
-		caller = modbus.NewSerialClient(serialPort{first}, modbus.WithSerialReadTimeout(5*time.Second))
+		caller = modbus.NewSerialClient(serialPort{first}, modbus.WithSerialReadTimeout(60*time.Second))
 	default:
 		return "BADOP"
 	}
@@ -307,7 +307,7 @@ func execConc(ts []string) string {
 	go func() { wg.Wait(); close(done) }()
 	select {
 	case <-done:
-	case <-time.After(60 * time.Second):
+	case <-time.After(300 * time.Second):
 		return "HANG"
 	}
 	if panicked.Load() {
